@@ -11,7 +11,13 @@ for d in "$@"; do
   cd $WT && git checkout -q -- . && git clean -fdq
   if ! git apply $d/patch.diff 2>/dev/null; then echo "$id: PATCH DOES NOT APPLY"; continue; fi
   go test -c -vet=off -o /var/tmp/wtv-suite-$$.test . 2>/dev/null || { echo "$id: BUILD FAILS with change"; continue; }
-  suite=$(run_ns "/var/tmp/wtv-suite-$$.test -test.count=1 -test.timeout=20m >/var/tmp/wtv-suite-$$.log 2>&1; echo rc=\$?; grep -c -- '--- FAIL' /var/tmp/wtv-suite-$$.log")
+  for try in 1 2 3 4 5; do
+    suite=$(run_ns "/var/tmp/wtv-suite-$$.test -test.count=1 -test.timeout=20m >/var/tmp/wtv-suite-$$.log 2>&1; echo rc=\$?; grep -c -- '--- FAIL' /var/tmp/wtv-suite-$$.log")
+    # the suite's known flake on a loaded machine (handshake timeout of 1 s -> panic in a test helper): run it again
+    case "$suite" in rc=0*) break;; esac
+    grep -q "protocolInitializer init timeout" /var/tmp/wtv-suite-$$.log || break
+    suite="$suite (flake: protocolInitializer init timeout, try $try)"
+  done
   cp $d/demo_test.go $WT/zz_seeded_demo_test.go
   go test -c -vet=off -o /var/tmp/wtv-demo-$$.test . 2>/dev/null || { echo "$id: DEMO BUILD FAILS"; rm -f $WT/zz_seeded_demo_test.go; continue; }
   names=$(grep -oE "^func (Test[A-Za-z0-9_]+)" $d/demo_test.go | awk '{print $2}' | paste -sd'|')
